@@ -172,6 +172,14 @@ func (tw *timeoutWriter) Header() http.Header {
 
 // Hijack implements the Hijacker interface.
 func (tw *timeoutWriter) Hijack() (net.Conn, *bufio.ReadWriter, error) {
+	tw.mu.Lock()
+	defer tw.mu.Unlock()
+
+	// the timeout response has been written, the connection is not the handler's anymore.
+	if tw.timedOut {
+		return nil, nil, http.ErrHandlerTimeout
+	}
+
 	if hijacked, ok := tw.w.(http.Hijacker); ok {
 		return hijacked.Hijack()
 	}
